@@ -35,7 +35,7 @@ _add("C13", "bounded symbolic verification in H^2 (+ an H^3 square): origin_to a
 _add("C18", "bounded symbolic verification of indefinite_orthogonalize (signatures p+q<=3), find_isometry (null-space stub), diagonalize_form (spectral eigh stub, n<=3), svd_kernel (SVD stub, rank patterns up to 3x3), circle_through / sphere_through and the arc-ordering helpers on arctan2 angles modelled as plane directions")
 _add("C14", "bounded symbolic verification of circle / sphere parameters in both conformal models: endpoints on the reported circle, orthogonality to the boundary, reported angles (arctan2 values as plane directions) point to the endpoints and bound the arc inside the model, degrees flag, enum vs string model, horospheres, subspace spheres (known finding for planes in H^3 reported as KNOWN-FINDING)")
 _add("C15", "bounded symbolic verification with a nondeterministic eigen-decomposition stub (arbitrary eigenvalue order, arbitrary eigenvector scale; per element for composites): loxodromic and elliptic fixed points for both representative signs, composite fixed points, reflection_across (incl. a moved wall), from_reflection round trip, rejection of non-reflections; H^2")
-_add("C20", "PARTIAL: bounded symbolic verification of the bounded-disk part only: spherical/projective conversion and stereographic projection, CP1Disk centre/radius, images of disks under symbolic affine Moebius maps, contains/intersects for bounded disks (elementwise, pairwise); Fubini-Study construction, complements and disks containing infinity are outside this technique (stated)")
+_add("C20", "PARTIAL: bounded symbolic verification: spherical/projective conversion and stereographic projection, CP1Disk centre/radius, images of disks under symbolic affine Moebius maps, contains/intersects (elementwise, pairwise) for all four combinations of bounded disks and disks containing infinity (the latter given by their four defining points); Fubini-Study construction, fs_center/fs_diameter, complement()/inversion() and non-affine Moebius images in the quick tier are outside (stated)")
 NA = {"C19": "not applicable to solver-based checking: drawing casts to float64 and hands the data to matplotlib (compiled spline / arc code, isnan and 1e-4 thresholds on Bezier vertices); no symbolic value survives the cast and no installed SMT theory covers the arctan2/cos/sin spline tables. The geometric content drawing relies on (circle parameters, arc selection) is checked under C14 / C18. See DESIGN.md section 5."}
 def main():
     checks = []
